@@ -94,7 +94,11 @@ void Encoder::putPacket(const Packet& packet)
         bytesLeft -= bytesToAdd;
 
         if (isSegmentedFlag == SegmentType::lastSegment)
-            addNewCMPFrame(packet);
+        {
+            // A last segment stays alone in its frame: close the frame, the next message opens a new one
+            cmpFrame.resize(std::max(cmpFrame.size() - bytesLeft, minBytesPerMessage), 0);
+            bytesLeft = 0;
+        }
     }
 
 }
@@ -144,7 +148,9 @@ bool Encoder::checkIfSegmented(const Packet& packet)
     bool isSegmented = (!cmpFrames.empty() && bytesLeft < sizeof(MessageHeader) + packet.getPayloadLength());
     if (isSegmented)
     {
-        addNewCMPFrame(packet);
+        // A frame that holds no message yet is as good as a new one
+        if (bytesLeft != maxBytesPerMessage - sizeof(CmpHeader))
+            addNewCMPFrame(packet);
         isSegmented = (!cmpFrames.empty() && bytesLeft < sizeof(MessageHeader) + packet.getPayloadLength());
     }
     return isSegmented;
